@@ -252,6 +252,19 @@ class Inliner:
         try:
             body = _helper_body(helper)
             subst, pre, rename = _bind(helper, call, receiver, is_method)
+            # x = helper(x) with a helper that rebinds its parameter: the parameter *is* x (no copy needed, x is overwritten by the result anyway)
+            if kind == "assign" and len(st.targets) == 1 and isinstance(st.targets[0], ast.Name):
+                tgt = st.targets[0].id
+                for p_ in list(pre):
+                    if isinstance(p_.value, ast.Name) and p_.value.id == tgt and isinstance(p_.targets[0], ast.Name):
+                        new_name = p_.targets[0].id
+                        others_read_tgt = any(isinstance(x, ast.Name) and x.id == tgt for q_ in pre if q_ is not p_ for x in ast.walk(q_.value)) or \
+                            any(isinstance(x, ast.Name) and x.id == tgt for v_ in subst.values() for x in ast.walk(v_))
+                        if not others_read_tgt:
+                            for k_, v_ in list(rename.items()):
+                                if v_ == new_name:
+                                    rename[k_] = tgt
+                            pre.remove(p_)
             tr = _Rename(subst, rename)
             body = [tr.visit(copy.deepcopy(s)) for s in body]
 
